@@ -120,6 +120,10 @@ func runC12(r *Run) {
 				if r.Rng.Intn(40) == 0 {
 					base = "" // the root
 				}
+				base = strings.Trim(base, ".") // no empty labels: "x." + "" (the root) is "x", not "x."
+				for strings.Contains(base, "..") {
+					base = strings.ReplaceAll(base, "..", ".")
+				}
 				bases = append(bases, norm12(base))
 				rl.pattern = r.spell12(base)
 			}
